@@ -337,6 +337,46 @@ func encodeValue(v interface{}) interface{} {
 	return map[string]interface{}{"k": "?", "v": fmt.Sprint(v)}
 }
 
+// relayout puts 0-2 random JSON whitespace characters on both sides of every structural
+// character of a compact JSON text (string contents are left alone).
+func relayout(text string, rng *rand.Rand) string {
+	ws := func(b *strings.Builder) {
+		for k := rng.Intn(3); k > 0; k-- {
+			b.WriteByte(" \t\r\n"[rng.Intn(4)])
+		}
+	}
+	var b strings.Builder
+	inStr, esc := false, false
+	ws(&b)
+	for i := 0; i < len(text); i++ {
+		c := text[i]
+		if inStr {
+			b.WriteByte(c)
+			if esc {
+				esc = false
+			} else if c == '\\' {
+				esc = true
+			} else if c == '"' {
+				inStr = false
+			}
+			continue
+		}
+		switch c {
+		case '"':
+			inStr = true
+			b.WriteByte(c)
+		case '[', ']', '{', '}', ',', ':':
+			ws(&b)
+			b.WriteByte(c)
+			ws(&b)
+		default:
+			b.WriteByte(c)
+		}
+	}
+	ws(&b)
+	return b.String()
+}
+
 func parseDrive(args []string) int {
 	fs := flag.NewFlagSet("parse", flag.ExitOnError)
 	seed := fs.Int64("seed", 1, "seed")
@@ -350,15 +390,23 @@ func parseDrive(args []string) int {
 		var buf bytes.Buffer
 		enc := json.NewEncoder(&buf)
 		enc.SetEscapeHTML(false)
-		layout := "compact"
-		if rng.Intn(2) == 0 {
+		layout := [...]string{"compact", "indent", "crlf", "tabs", "spaced"}[rng.Intn(5)]
+		switch layout {
+		case "indent", "crlf":
 			enc.SetIndent("", "  ")
-			layout = "indent"
+		case "tabs":
+			enc.SetIndent("", "\t")
 		}
 		if err := enc.Encode(doc); err != nil {
 			continue
 		}
 		text := strings.TrimSuffix(buf.String(), "\n")
+		switch layout {
+		case "crlf": // encoding/json escapes line breaks inside strings, so every raw LF is layout
+			text = strings.ReplaceAll(text, "\n", "\r\n")
+		case "spaced":
+			text = relayout(text, rng)
+		}
 		if strings.Contains(text, "\\u") {
 			continue // \uXXXX escapes need hexadecimal arithmetic the specification does not model
 		}
